@@ -22,7 +22,7 @@ pub broadcast axiom fn axiom_str_to_string(s: &str, r: String) ensures #[trigger
 // binding powers of the registry (unit L proves that get_precidence returns (2p, 2p+-1) of the registered entry)
 pub uninterp spec fn lbp(op: Seq<char>) -> int;
 pub uninterp spec fn rbp(op: Seq<char>) -> int;
-pub struct InfixOpManager {}
+#[verifier::external_body] pub struct InfixOpManager { x: u8 }     // opaque: an empty struct would make every handle equal, and a view that is a function of the handle could then never change
 impl InfixOpManager {
   #[verifier::external_body] pub fn new() -> Self { unimplemented!() }
   #[verifier::external_body] pub fn get_precidence(&self, op: &str) -> (r: (i32, i32)) ensures r.0 == lbp(op@), r.1 == rbp(op@) { unimplemented!() }
